@@ -180,6 +180,18 @@ func checkC29(h *hx.H, c layCase) {
 				if p := cn.GetLabelTopLeft(); cn.Label != "" && p != nil && (math.IsNaN(p.X) || math.IsNaN(p.Y) || math.IsInf(p.X, 0) || math.IsInf(p.Y, 0)) {
 					culprit = ":connection-label-position-nan"
 				}
+				// the same degenerate route (all points equal) with an arrowhead label instead of a label
+				if (cn.SrcLabel != nil || cn.DstLabel != nil) && len(cn.Route) >= 2 {
+					zero := true
+					for _, q := range cn.Route[1:] {
+						if q.X != cn.Route[0].X || q.Y != cn.Route[0].Y {
+							zero = false
+						}
+					}
+					if zero {
+						culprit = ":connection-label-position-nan"
+					}
+				}
 			}
 			h.FailSoft("bounding-box-overflow"+culprit, "%s (%s): BoundingBox() returns (%d,%d)-(%d,%d)\n%s", bp, c.Engine, tl.X, tl.Y, br.X, br.Y, c.Text)
 			return
